@@ -40,6 +40,20 @@ def ext_split(x, recv, args, kwargs, st, n):
 def ext_isalnum(x, recv, args, kwargs, st, n): return VBool(isalnum(recv.z()))
 
 
+upperf = z3.Function("upper", S, S)
+REPORT_KEYS = ("MPos", "WPos", "PRB", "FS", "X", "Y", "Z", "A", "B", "C", "E", "F", "S", "T")
+
+
+def ext_upper(x, recv, args, kwargs, st, n):
+    """str.upper() as an uninterpreted function with the facts the report grammar needs: same length, idempotent, its value on the literal report keys,
+    and: no string upper-cases to a key that contains a lower-case letter"""
+    s = recv.z(); u = upperf(s)
+    x.assume.append(AND(z3.Length(u) == z3.Length(s), upperf(u) == u,
+                        *[IMP(s == z3.StringVal(k), u == z3.StringVal(k.upper())) for k in REPORT_KEYS],
+                        *[u != z3.StringVal(k) for k in REPORT_KEYS if k != k.upper()]))
+    return VStr(None, u)
+
+
 def ext_map(x, args, kwargs, st, n):
     fn, seq = args
     out = []
@@ -84,6 +98,7 @@ def install_report(x, kappa):
     x.ext["float_of_str"] = ext_float_of_str
     x.ext["str.split"] = ext_split
     x.ext["str.isalnum"] = ext_isalnum
+    x.ext["str.upper"] = ext_upper
     x.ext["map"] = ext_map
 
 
